@@ -17,7 +17,7 @@ type Interp struct {
 	P       *load.Prog
 	globals map[types.Object]*Cell
 	Fuel    int
-	lits map[*ast.FuncLit]*packages.Package
+	lits    map[*ast.FuncLit]*packages.Package
 	// VFS is the virtual file system behind os.Open/ReadFile: absolute path ->
 	// abstract File value. The parser is never evaluated: an imported file is
 	// whatever abstract schema the checker placed at that path.
@@ -1591,7 +1591,6 @@ func describe(v Value) string {
 	}
 	return fmt.Sprintf("%v", v)
 }
-
 
 // dynamicMethod finds the method named like m in the method set of the
 // dynamic type of recv (a struct value, or a pointer to one).
